@@ -252,7 +252,9 @@ def run_model(requests: list[dict], timeout=1200) -> list[dict]:
             r = subprocess.run(["lake", "env", "lean", "--run", "Driver.lean"], cwd=LEAN, stdin=i, stdout=o, stderr=subprocess.PIPE, text=True, timeout=timeout)
     except subprocess.TimeoutExpired:
         raise Infra("Lean driver timed out")
-    lines = fout.read_text().splitlines()
+    lines = fout.read_text(encoding="utf-8").split("\n")  # not splitlines(): U+0085, U+2028 … may occur inside JSON strings
+    if lines and lines[-1] == "":
+        lines.pop()
     if r.returncode != 0 or len(lines) != len(requests):
         raise Infra(f"Lean driver failed (rc={r.returncode}, {len(lines)}/{len(requests)} answers): {r.stderr[-2000:]}")
     out = []
